@@ -386,6 +386,8 @@ def check(ctx, R):
     R.run("C01.f", rule_f, ctx)
     from . import preds
     R.run("C01.p", lambda R, c: preds.rule(R, c, "C01.p", ["detect_conflict", "is_missing", "block_is_deleted", "flags_check"]), ctx)
+    from . import c03 as _c03
+    R.run("C01.i", lambda R, c: _c03.rule_b(R, c, "C01.i"), ctx)
     from . import c02
     R.run("C01.g", lambda R, c: c02.rule_a(R, c, "C01.g.frontier"), ctx)
     R.run("C01.g", lambda R, c: c02.rule_b2(R, c, "C01.g.missing"), ctx)
